@@ -4,14 +4,15 @@ import "io"
 
 // vCutReader delivers the first cut bytes of data and then fails like a dying connection.
 type vCutReader struct {
-	data []byte
-	cut  int
-	pos  int
+	data     []byte
+	cut      int
+	pos      int
+	cleanEOF bool // the cut shows up as a clean end of stream instead of a read error
 }
 
 func (r *vCutReader) Read(p []byte) (int, error) {
 	if r.pos >= r.cut {
-		if r.cut >= len(r.data) {
+		if r.cut >= len(r.data) || r.cleanEOF {
 			return 0, io.EOF
 		}
 		return 0, vErr{}
@@ -61,7 +62,7 @@ func c09UploadStep(anyCut bool) {
 		cut = menu[vChoice("cut_point", 13)]
 		vAssume(cut <= len(stream))
 	}
-	r := &vCutReader{data: stream, cut: cut}
+	r := &vCutReader{data: stream, cut: cut, cleanEOF: vBool("cut_is_clean_eof")}
 	ft := &FileTransfer{bytesSentCounter: &WriteCounter{}}
 	err := UploadHandler(r, final, ft, &vNSStore{}, vLogger(), false)
 
